@@ -73,7 +73,7 @@ func FromString(s string, precision int) (*big.Int, error) {
 		return nil, ErrInvalidFormat
 	}
 	fp.Mul(fp, pow10(precision-len(parts[1])))
-	if bi.Sign() == -1 {
+	if strings.HasPrefix(parts[0], "-") { // "-0" parses to zero: the sign is in the string, not in the value
 		return bi.Sub(bi, fp), nil
 	}
 	return bi.Add(bi, fp), nil
